@@ -27,6 +27,12 @@ type Opts struct {
 	SubqDepth int
 	// SubqProb is the probability that a source is a subquery (default 0.2).
 	SubqProb float64
+	// SubqInto is the probability that a subquery carries an INTO clause of
+	// its own (the parser accepts one); default 0.05 outside Simple mode.
+	SubqInto float64
+	// FewDBs draws database names from a pool of three, so that the same
+	// database is read, written and named at several depths of one statement.
+	FewDBs bool
 }
 
 // G generates one statement at a time.
@@ -66,6 +72,11 @@ var hostileBases = []string{"my db", "a.b", `q"t`, `b\s`, "nl\nx", "1st", "é日
 func (g *G) Name(slot string) string {
 	g.n++
 	var s string
+	if g.Opt.FewDBs && slot == "db" {
+		s = g.Rg.Pick("db0", "db1", "Db2")
+		g.Names = append(g.Names, slot+"="+s)
+		return s
+	}
 	if g.Opt.Hostile && g.Rg.P(0.6) {
 		s = hostileBases[g.Rg.Intn(len(hostileBases))]
 		if g.Rg.P(0.7) {
